@@ -19,7 +19,7 @@ spec fn replace_is_atomic() -> bool;             // `replace` records one Replac
 spec fn accepts_replace(&self) -> bool;          // may `replace` be called (false for the Replace adapter: outside the verified envelope)
 spec fn config(&self) -> Self;                   // the part of the hook that no call changes (adapters: their configuration); framed by every call
 #[verifier::prophetic]
-spec fn fobs(&self) -> Obs<Self::Error>;         // prophecy: what the hook(s) borrowed inside this value will look like when the borrows end;
+spec fn fobs(&self) -> Seq<Obs<Self::Error>>;    // prophecy: what the hooks borrowed inside this value (outermost first) will look like when the borrows end;
                                                  // no call re-seats such a borrow, so it never changes (lets callers resolve `&mut` hooks stored in adapters)
 ''', '    ')
 O = '(*old(self))'
